@@ -88,7 +88,7 @@ def run(tier, seed):
     # node-local identifiers inside frames with a distribution header (the path received frames take)
     lc = os.path.join(lib.outdir(PID), "local_cases.ndjson")
     lo = os.path.join(lib.outdir(PID), "local_obs.ndjson")
-    g = lib.tlc("gen/Gen_DistHeader.tla", "gen/Gen_DistHeader_quick.cfg", PID, "gen_dh", workers=1, env={"MODE": "cases", "OUT": os.path.join(lib.outdir(PID), "dh_cases_unused.ndjson"), "OUT_LOCAL": lc})
+    g = lib.tlc("gen/Gen_DistHeader.tla", "gen/Gen_DistHeader_quick.cfg", PID, "gen_dh", workers=1, env={"MODE": "cases", "OUT": os.path.join(lib.outdir(PID), "dh_cases_unused.ndjson"), "OUT_LOCAL": lc, "OUT_FILL": os.path.join(lib.outdir(PID), "dh_fill_unused.ndjson")})
     if g.rc != 0 or not os.path.exists(lc):
         raise lib.ToolError("Gen_DistHeader did not produce the node-local identifier frames")
     lcases = lib.read_ndjson(lc)
